@@ -614,3 +614,12 @@ package tchannel
 //@   label reference-taken-under-the-lock-for-an-absent-entry
 //@   atcall addSC locked(l) && !has(l.peersByHostPort, hostPort)
 //@   property C16
+
+// Dropping a peer from one peer list only gives up that list's reference: the
+// root list is left alone (another list, or a connection, may still refer to
+// the peer; the root entry goes when the last connection closes and nothing
+// references the peer -- RootPeerList.onClosedConnRemoved above).
+//@ func (l *PeerList) Remove(hostPort string) (err error)
+//@   label root-list-untouched-by-a-list-removal
+//@   ensures forall k string :: has(l.parent.peersByHostPort, k) <==> old(has(l.parent.peersByHostPort, k))
+//@   property C16
